@@ -97,18 +97,38 @@ theorem leadingWs_replicate_append (k : Nat) (l : List Char) (h : isBlank l = fa
 theorem isBlank_indentBy (k : Nat) (l : List Char) : isBlank (indentBy k l) = isBlank l :=
   isBlank_replicate_append k l
 
-theorem baseIndent_indent (k : Nat) : ∀ (ls : List (List Char)),
-    baseIndent (ls.map (indentBy k)) = (baseIndent ls).map (· + k) := by
+theorem lstripL_replicate_append (k : Nat) (l : List Char) : lstripL (List.replicate k ' ' ++ l) = lstripL l := by
+  induction k with
+  | zero => rfl
+  | succ k ih =>
+    have : isPyWs ' ' = true := by decide
+    simp only [List.replicate_succ, List.cons_append, lstripL, this, if_true, ih]
+
+theorem isCommentLine_indentBy (k : Nat) (l : List Char) : isCommentLine (indentBy k l) = isCommentLine l := by
+  unfold isCommentLine indentBy
+  rw [lstripL_replicate_append]
+
+theorem baseIndentP_indent (k : Nat) (sc : Bool) : ∀ (ls : List (List Char)),
+    baseIndentP sc (ls.map (indentBy k)) = (baseIndentP sc ls).map (· + k) := by
   intro ls
   induction ls with
   | nil => rfl
   | cons l rest ih =>
-    simp only [List.map_cons, baseIndent, isBlank_indentBy]
+    simp only [List.map_cons, baseIndentP, isBlank_indentBy, isCommentLine_indentBy]
     split
     · exact ih
     · rename_i hb
-      have hb' : isBlank l = false := by simpa using hb
+      have hb' : isBlank l = false := by
+        cases hbl : isBlank l with
+        | false => rfl
+        | true => simp [hbl] at hb
       simp only [indentBy, Option.map_some, leadingWs_replicate_append k l hb']
+
+theorem baseIndent_indent (k : Nat) (ls : List (List Char)) :
+    baseIndent (ls.map (indentBy k)) = (baseIndent ls).map (· + k) := by
+  unfold baseIndent
+  rw [baseIndentP_indent, baseIndentP_indent]
+  cases baseIndentP true ls <;> simp
 
 theorem dedentLine_indent (k b : Nat) (l : List Char) (hok : isBlank l = true ∨ leadingWs l ≥ b) :
     dedentLine (b + k) (indentBy k l) = dedentLine b l := by
@@ -143,6 +163,19 @@ theorem dedent_uniform (k : Nat) (ls : List (List Char))
     apply List.map_congr_left
     intro l hl
     exact dedentLine_indent k b l (hwell b hb l hl)
+
+/-- **a `#` comment line above a block body is presentation only**: it does not set the indentation base, so the
+lines below it are dedented exactly as without it (wherever the comment itself is indented) -/
+theorem dedent_comment_head (c : List Char) (ls : List (List Char)) (hc : isCommentLine c = true)
+    (h : (baseIndentP true ls).isSome) : (dedent (c :: ls)).tail = dedent ls := by
+  obtain ⟨b, hb⟩ := Option.isSome_iff_exists.mp h
+  have h1 : baseIndent (c :: ls) = some b := by
+    simp [baseIndent, baseIndentP, hc, hb]
+  have h2 : baseIndent ls = some b := by
+    simp [baseIndent, hb]
+  simp [dedent, h1, h2]
+
+example : dedent ["# note".toList, "    a".toList, "      b".toList] = ["# note".toList, "a".toList, "  b".toList] := by decide
 
 example : dedent ["    a".toList, "      b".toList, "    ".toList, "    c".toList] = ["a".toList, "  b".toList, "".toList, "c".toList] := by decide
 
